@@ -646,3 +646,7 @@ def run(ctx):
     _run_main_nf(ctx)
     _NF.narrow_oracles(ctx, 'C09', _narrow_table())
     ctx.flush()
+
+
+# evidence: how the model is tied to the source on every run (as built, supersedes the value above)
+TIE = 'translator (array one-liners -> Gen/ImSimple, calc_cav_dp -> Gen/ImCavDp, constants -> Gen/Consts; Props/C09Sem, C09Gen, C09GenCav) + correspondence'
